@@ -290,6 +290,7 @@ func lifeRunOne(w *tr.Writer, tid int, raw json.RawMessage, c *common) error {
 	runRet := make(chan error, 1)
 	stopped := false
 	when := "up"
+	runRead := false // Run's result has already been taken (first connect refused)
 	finish := func() {
 		// Stop must make Run return
 		if !stopped {
@@ -303,11 +304,13 @@ func lifeRunOne(w *tr.Writer, tid int, raw json.RawMessage, c *common) error {
 				w.Emit(tr.Rec{"ev": "note", "stall": "Stop() did not return"})
 			}
 		}
-		select {
-		case err := <-runRet:
-			w.Emit(tr.Rec{"ev": "runret", "err": err != nil, "timely": true, "when": when})
-		case <-time.After(3 * time.Second):
-			w.Emit(tr.Rec{"ev": "runret", "err": false, "timely": false, "when": when})
+		if !runRead {
+			select {
+			case err := <-runRet:
+				w.Emit(tr.Rec{"ev": "runret", "err": err != nil, "timely": true, "when": when})
+			case <-time.After(3 * time.Second):
+				w.Emit(tr.Rec{"ev": "runret", "err": false, "timely": false, "when": when})
+			}
 		}
 		atomic.StoreInt32(&s.closing, 1)
 		s.l.Close()
@@ -409,6 +412,7 @@ func lifeRunOne(w *tr.Writer, tid int, raw json.RawMessage, c *common) error {
 				}
 				openL()
 				stopped = true
+				runRead = true
 				w.Emit(tr.Rec{"ev": "quietround", "i": ri + 1, "up": false, "refusedfirst": true})
 				finish()
 				return nil
